@@ -119,6 +119,7 @@ func runWatchdog(id int, sc *wdScript) wdLine {
 	}
 	wfailed := false
 	ncer := 0
+	var tCEA time.Time
 	mc.OnWrite = func(k int, b []byte) memnet.WriteOutcome {
 		msgs, _ := splitMsgs(b)
 		for _, m := range msgs {
@@ -129,6 +130,9 @@ func runWatchdog(id int, sc *wdScript) wdLine {
 					continue
 				}
 				cea := ceaFor("ok", &m)
+				mu.Lock()
+				tCEA = time.Now() // before the library sees it: an interval measured from here is never too short
+				mu.Unlock()
 				go mc.Feed(cea)
 			case m.Cmd == 280 && m.Flags&0x80 != 0:
 				if sc.Kind == "wfail_none" && !wfailed {
@@ -268,6 +272,11 @@ func runWatchdog(id int, sc *wdScript) wdLine {
 		order = order[:sc.Rounds]
 	}
 	prev := tHS
+	mu.Lock()
+	if !tCEA.IsZero() {
+		prev = tCEA
+	}
+	mu.Unlock()
 	for _, h := range order {
 		ds := by[h]
 		r := wdRound{NCopies: len(ds), Identical: true, MinGap: 1 << 30, StartGap: int(ds[0].t.Sub(prev) / time.Millisecond)}
